@@ -28,7 +28,7 @@ from common import enc_str, parse_sexp, dec_str, run_cli_mode
 LEVEL = "proof"
 
 # ------------------------------------------------------------------ abstract syntax (Python side)
-# values: None, bool, int, str, list, dict(str->value), ("range", n), UNDEF
+# values: None, bool, int, str, list, dict(str->value), ("range", n), ("tuple", [..]), UNDEF
 UNDEF = ("undef",)
 
 
@@ -53,6 +53,8 @@ def enc_value(v):
         return f"(6 {enc_z(v[1])})"
     if v == UNDEF:
         return "(7)"
+    if isinstance(v, tuple) and v[0] == "tuple":
+        return "(8 (" + " ".join(enc_value(x) for x in v[1]) + "))"
     raise ValueError(v)
 
 
@@ -78,6 +80,8 @@ def dec_value(x):
         return ("range", -x[2] if x[1] == 1 else x[2])
     if t == 7:
         return UNDEF
+    if t == 8:
+        return ("tuple", [dec_value(y) for y in x[1]])
     raise ValueError(x)
 
 
@@ -89,8 +93,9 @@ def dec_nv(x):
 
 # expr: ("var",x) ("attr",e,f) ("idx",e,i) ("str",s) ("int",z) ("bool",b) ("none",)
 #       ("eq",a,b) ("ne",a,b) ("not",a) ("and",a,b) ("or",a,b) ("range",a) ("list",[..])
+#       ("tuple",[..]) ("dict",[(key,e)..])
 ETAG = {"var": 0, "attr": 1, "idx": 2, "str": 3, "int": 4, "bool": 5, "none": 6, "eq": 7, "ne": 8, "not": 9,
-        "and": 10, "or": 11, "range": 12, "list": 13}
+        "and": 10, "or": 11, "range": 12, "list": 13, "tuple": 14, "dict": 15}
 
 
 def enc_expr(e):
@@ -107,8 +112,10 @@ def enc_expr(e):
         return f"(5 {1 if e[1] else 0})"
     if k == "none":
         return "(6)"
-    if k == "list":
-        return "(13 (" + " ".join(enc_expr(x) for x in e[1]) + "))"
+    if k in ("list", "tuple"):
+        return f"({ETAG[k]} (" + " ".join(enc_expr(x) for x in e[1]) + "))"
+    if k == "dict":
+        return "(15 (" + " ".join(f"({enc_str(kk)} {enc_expr(x)})" for kk, x in e[1]) + "))"
     return f"({ETAG[k]} " + " ".join(enc_expr(x) for x in e[1:]) + ")"
 
 
@@ -138,8 +145,11 @@ def enc_cell(c):
 def names_in_expr(e, acc):
     if e[0] == "var":
         acc.add(e[1])
-    elif e[0] == "list":
+    elif e[0] in ("list", "tuple"):
         for x in e[1]:
+            names_in_expr(x, acc)
+    elif e[0] == "dict":
+        for _, x in e[1]:
             names_in_expr(x, acc)
     elif e[0] == "attr":
         names_in_expr(e[1], acc)
@@ -217,6 +227,8 @@ def py_ctx(d):
     def conv(v):
         if isinstance(v, tuple) and v[0] == "range":
             return range(v[1])
+        if isinstance(v, tuple) and v[0] == "tuple":
+            return tuple(conv(x) for x in v[1])
         if isinstance(v, list):
             return [conv(x) for x in v]
         if isinstance(v, dict):
@@ -236,17 +248,31 @@ def canon(r):
     if isinstance(r, range):
         if r.start == 0 and r.step == 1:
             return ("range", r.stop)
-        return ("other", repr(r))
+        return ("other", safe_repr(r))
     if isinstance(r, list):
         return [canon(x) for x in r]
+    if isinstance(r, tuple):
+        return ("tuple", [canon(x) for x in r])
     if isinstance(r, dict):
+        if not all(isinstance(k, str) for k in r):
+            return ("other", safe_repr(r))
         return {k: canon(v) for k, v in r.items()}
-    return ("other", repr(r))
+    return ("other", safe_repr(r))
+
+
+def safe_repr(r):
+    """repr() may itself fail when the object holds an undefined whose repr raises"""
+    try:
+        return repr(r)
+    except Exception as e:
+        return f"<repr fails: {type(e).__name__}>"
 
 
 def has_nested_undef(v):
     if isinstance(v, list):
         return any(x == UNDEF or has_nested_undef(x) for x in v)
+    if isinstance(v, tuple) and v and v[0] == "tuple":
+        return any(x == UNDEF or has_nested_undef(x) for x in v[1])
     if isinstance(v, dict):
         return any(x == UNDEF or has_nested_undef(x) for x in v.values())
     return False
@@ -289,8 +315,10 @@ def gen_value(rng, depth=2):
         if k < 0.9:
             return rng.choice([True, False])
         return None
-    if r < 0.8:
+    if r < 0.76:
         return [gen_value(rng, depth - 1) for _ in range(rng.choice([0, 1, 2, 3]))]
+    if r < 0.8:
+        return ("tuple", [gen_value(rng, depth - 1) for _ in range(rng.choice([0, 1, 2, 3]))])
     if r < 0.95:
         return {f: gen_value(rng, depth - 1) for f in rng.sample(FIELDS, rng.choice([0, 1, 2, 3]))}
     return ("range", rng.choice([0, 1, 2, 3, -1]))
@@ -360,9 +388,16 @@ def gen_expr(rng, ctx, depth, p_missing):
         return ("not", gen_expr(rng, ctx, depth - 1, p_missing))
     if r < 0.90:
         return (rng.choice(["and", "or"]), gen_expr(rng, ctx, depth - 1, p_missing), gen_expr(rng, ctx, depth - 1, p_missing))
-    if r < 0.94:
+    if r < 0.92:
         return ("range", gen_expr(rng, ctx, depth - 1, p_missing) if rng.random() < 0.5 else ("int", rng.choice([0, 1, 2, 3])))
-    return ("list", [gen_expr(rng, ctx, depth - 1, p_missing) for _ in range(rng.choice([0, 1, 2, 3]))])
+    # container literals: list / tuple / dict (distinct string keys), nested through the recursion
+    k = rng.random()
+    if k < 0.5:
+        return ("list", [gen_expr(rng, ctx, depth - 1, p_missing) for _ in range(rng.choice([0, 1, 2, 3]))])
+    if k < 0.75:
+        return ("tuple", [gen_expr(rng, ctx, depth - 1, p_missing) for _ in range(rng.choice([0, 1, 1, 2, 3]))])
+    keys = rng.sample(FIELDS + ["a b", "K"], rng.choice([0, 1, 2, 3]))
+    return ("dict", [(kk, gen_expr(rng, ctx, depth - 1, p_missing)) for kk in keys])
 
 
 def is_const(e):
@@ -371,8 +406,10 @@ def is_const(e):
         return False
     if k in ("str", "int", "bool", "none"):
         return True
-    if k == "list":
+    if k in ("list", "tuple"):
         return all(is_const(x) for x in e[1])
+    if k == "dict":
+        return all(is_const(x) for _, x in e[1])
     if k == "attr":
         return is_const(e[1])
     return all(is_const(x) for x in e[1:])
@@ -434,8 +471,31 @@ def gen_nodes(rng, ctx, depth, p_missing, n=None):
     return res
 
 
+def gen_holder(rng, ctx, depth, p_missing):
+    """a list / tuple / dict literal nested up to `depth`, leaves = small expressions"""
+    def leaf():
+        return gen_expr(rng, ctx, rng.choice([0, 0, 1]), p_missing)
+
+    def sub(d):
+        return gen_holder(rng, ctx, d - 1, p_missing) if d > 1 and rng.random() < 0.45 else leaf()
+
+    n = rng.choice([1, 1, 2, 3])
+    k = rng.random()
+    if k < 0.45:
+        return ("list", [sub(depth) for _ in range(n)])
+    if k < 0.7:
+        return ("tuple", [sub(depth) for _ in range(n)])
+    return ("dict", [(kk, sub(depth)) for kk in rng.sample(FIELDS + ["a b", "K"], n)])
+
+
 def gen_cell(rng, ctx, p_missing):
-    if rng.random() < 0.22:
+    r = rng.random()
+    if r < 0.07:
+        return ("native", gen_holder(rng, ctx, 4, p_missing))
+    if r < 0.16:
+        pre = [("text", gen_text(rng))] if rng.random() < 0.5 else []
+        return ("tmpl", pre + [("out", gen_holder(rng, ctx, 4, p_missing))])
+    if r < 0.35:
         return ("native", gen_expr(rng, ctx, 2, p_missing))
     return ("tmpl", gen_nodes(rng, ctx, 2, p_missing))
 
@@ -443,7 +503,10 @@ def gen_cell(rng, ctx, p_missing):
 # malformed / out-of-language stream: raw cell texts
 RAW = ["{", "{{", "{{ a", "{% if %}", "{# c #}", "{{ a | upper }}", "{{ loop }}", "{@ a @} {@ b @}", "x {@ a @}", "{@ a", "a @}",
        "{{ a.items }}", "{{ a + 1 }}", "{{ 'x' ~ a }}", "{{ a is defined }}", "{{ a | default('') }}", "{{ missing | default('d') }}",
-       "{{ dict }}", "{{ range }}", "{% set q = 1 %}{{ q }}", "{{ a if b }}", "{{ a if missing else 'e' }}", "{{}}", "{@@}", "{@ @}", "{{ a[ }}"]
+       "{{ dict }}", "{{ range }}", "{% set q = 1 %}{{ q }}", "{{ a if b }}", "{{ a if missing else 'e' }}", "{{}}", "{@@}", "{@ @}", "{{ a[ }}",
+       # outside the mini-language: other roads on which repr() of the value is taken
+       "{{ [a] | string }}", "{@ [a] | string @}", "{{ '%r' | format(a) }}", "{{ [a] | pprint }}", "{{ dict(k=a) }}", "{{ (b, a) | list }}",
+       "{{ {'k': [a]} | string }}", "{% set q = [a] %}{{ q }}", "{{ [a] | join(',') }}", "{{ '%s' | format(a) }}", "{{ [a] | tojson }}"]
 
 
 # ------------------------------------------------------------------ spy (model-free oracle)
@@ -546,6 +609,21 @@ def behavioural_policy(cp_factory):
         r = run_cli_mode(cp_factory().parse_as_string, t, dict(ctx))
         res.append("E" if r[0] == "err" else ("B" if r[1] is blank else "O"))
     out["native"] = "Strict" if set(res) == {"E"} else "Lenient" if set(res) == {"B"} else "Mixed:" + "".join(res)
+    # an Undefined object that nothing forces because it sits inside a container
+    def shapes(templates, leaked):
+        res = []
+        for t in templates:
+            r = run_cli_mode(cp_factory().parse_as_string, t, dict(ctx))
+            res.append("E" if r[0] == "err" else ("L" if leaked(r[1]) else "O"))
+        return True if set(res) == {"E"} else False if set(res) == {"L"} else "Mixed:" + "".join(res)
+
+    out["env_repr_fails"] = shapes(
+        ["{{ [zq_missing] }}", "{{ (zq_missing, 1) }}", "{{ {'a': zq_missing} }}", "x{{ [1, [(zq_missing,)]] }}"],
+        lambda r: isinstance(r, str) and "Undefined" in r)
+    out["native_result_checked"] = shapes(
+        ["{@ zq_missing @}", "{@ [zq_missing] @}", "{@ (zq_missing, 1) @}", "{@ {'a': zq_missing} @}",
+         "{@ [1, [(zq_missing,)]] @}", "{@ ['b', zq_obj.zq_missing] @}"],
+        lambda r: canon(r) == UNDEF or has_nested_undef(canon(r)))
     return out
 
 
@@ -785,9 +863,10 @@ def run(ctx):
     tab = None
     if m:
         x = parse_sexp(m.ask("(116 0)"))
-        tab = {"env": "Strict" if x[0] == 0 else "Lenient", "native": "Strict" if x[1] == 0 else "Lenient"}
+        tab = {"env": "Strict" if x[0] == 0 else "Lenient", "native": "Strict" if x[1] == 0 else "Lenient",
+               "env_repr_fails": bool(x[2]), "native_repr_fails": bool(x[3]), "native_result_checked": bool(x[4])}
         stats["translator_policy"] = tab
-        for k in ("env", "native"):
+        for k in ("env", "native", "env_repr_fails", "native_result_checked"):
             if beh[k] != tab[k]:
                 ctx.disagree("undefined policy: translator constant vs behavioural probe", k, tab[k], beh[k])
     # the same instance the rest of the run uses must behave like a fresh one
@@ -810,15 +889,16 @@ def run(ctx):
                 if isinstance(r[1], jinja2.Undefined):
                     # native: the object comes back; instantiation ends in RowParser -> judged there
                     return row_level_native(text, pctx, family)
-                key = "undefined-inside-list-literal" if family == "list-literal" else "missing-name-renders"
-                fail(key, f"{family}: parse_as_string({text!r}, {pctx!r}) = {r[1]!r} (no error)",
-                     dict(fn="cell", text=text, ctx=pctx, mode=mode, expect="error", produced=repr(r[1])))
+                key = "undefined-inside-list-literal" if family == "list-literal" or family.startswith("holder") \
+                    else "missing-name-renders"
+                fail(key, f"{family}: parse_as_string({text!r}, {pctx!r}) = {safe_repr(r[1])} (no error)",
+                     dict(fn="cell", text=text, ctx=pctx, mode=mode, expect="error", produced=safe_repr(r[1])))
         else:
             if r[0] != "ok":
                 ctx.disagree("name in an un-evaluated position raised", text, "no error", str(r))
-            elif expect_value is not None and r[1] != expect_value:
-                fail("defined-not-exact", f"{family}: parse_as_string({text!r}, {pctx!r}) = {r[1]!r}, expected {expect_value!r}",
-                     dict(fn="cell", text=text, ctx=pctx, mode=mode, expect="value", value=expect_value, produced=repr(r[1])))
+            elif expect_value is not None and (r[1] != expect_value or type(r[1]) is not type(expect_value)):
+                fail("defined-not-exact", f"{family}: parse_as_string({text!r}, {pctx!r}) = {safe_repr(r[1])}, expected {expect_value!r}",
+                     dict(fn="cell", text=text, ctx=pctx, mode=mode, expect="value", value=expect_value, produced=safe_repr(r[1])))
 
     def row_level_native(text, pctx, family):
         """a native template whose value is an Undefined object: instantiation finishes in
@@ -838,8 +918,8 @@ def run(ctx):
             r = run_cli_mode(RowParser(M, CellParser()).parse_row, {field: text}, py_ctx(pctx))
             if r[0] == "ok":
                 got = getattr(r[1], field)
-                fail("missing-name-renders", f"{family}: RowParser field {field}: {text!r} with {pctx!r} -> {got!r} (no error)",
-                     dict(fn="rowfield", field=field, text=text, ctx=pctx, produced=repr(got)))
+                fail("missing-name-renders", f"{family}: RowParser field {field}: {text!r} with {pctx!r} -> {safe_repr(got)} (no error)",
+                     dict(fn="rowfield", field=field, text=text, ctx=pctx, produced=safe_repr(got)))
                 return
 
     base_ctx = {"name": "Ann", "row": {"k": "v"}, "lst": ["p", "q"], "flag": False, "yes": True, "n": 2}
@@ -869,6 +949,42 @@ def run(ctx):
         ]
         for fam, t, want in N:
             check_planted(t, base_ctx, False, fam, expect_value=want)
+        # the Undefined object of the name INSIDE a list / tuple / dict literal, to any depth: printing the
+        # container (text) and handing it back (native) are evaluated positions -> must be an error
+        H = [
+            ("holder-tuple", "{{ (%s, 1) }}" % miss), ("holder-tuple1", "{{ (%s,) }}" % miss), ("holder-dict", "{{ {'a': %s} }}" % miss),
+            ("holder-nested-list", "{{ [[%s]] }}" % miss), ("holder-after-defined", "{{ [name, %s] }}" % miss),
+            ("holder-deep", "{{ {'a': [1, (2, %s)]} }}" % miss), ("holder-in-text", "Hello {{ [%s] }}!" % miss),
+            ("holder-and-rhs", "{{ yes and [%s] }}" % miss), ("holder-field-of-object", "{{ [row.%s] }}" % miss),
+            ("holder-index-out-of-range", "{{ (name, lst[7]) }}"), ("holder-taken-branch", "{%% if yes %%}{{ [%s] }}{%% endif %%}" % miss),
+            ("holder-loop-body", "{%% for q in lst %%}{{ [q, %s] }}{%% endfor %%}" % miss),
+            ("holder-native-list", "{@ [%s] @}" % miss), ("holder-native-after-defined", "{@ [n, %s] @}" % miss),
+            ("holder-native-tuple", "{@ (%s, 1) @}" % miss), ("holder-native-dict", "{@ {'a': %s} @}" % miss),
+            ("holder-native-nested", "{@ [[1, [%s]]] @}" % miss), ("holder-native-deep", "{@ {'a': [1, (2, %s)]} @}" % miss),
+            ("holder-native-field-of-object", "{@ [name, row.%s] @}" % miss), ("holder-native-and-rhs", "{@ yes and [%s] @}" % miss),
+            ("holder-native-index-out-of-range", "{@ {'k': lst[7]} @}"),
+            # forced on every tree: range() / escape of a container
+            ("range-of-holder", "{%% for q in range([%s]) %%}q{%% endfor %%}" % miss), ("escape-of-holder", "{{ [%s] | escape }}" % miss),
+            ("function-argument", "{{ range(%s) }}" % miss),
+        ]
+        for fam, t in H:
+            check_planted(t, base_ctx, True, fam)
+        HN = [  # the same literals over DEFINED names / in un-evaluated positions: value known, no error
+            ("holder-defined-list", "{{ [name, n] }}", "['Ann', 2]"), ("holder-defined-tuple", "{{ (name, n) }}", "('Ann', 2)"),
+            ("holder-defined-tuple1", "{{ (name,) }}", "('Ann',)"), ("holder-defined-dict", "{{ {'a': name, 'b': [n]} }}", "{'a': 'Ann', 'b': [2]}"),
+            ("holder-short-circuit", "{{ flag and [%s] }}" % miss, "False"), ("holder-false-branch", "{%% if flag %%}{{ [%s] }}{%% endif %%}z" % miss, "z"),
+            ("holder-native-defined-list", "{@ [name, n] @}", ["Ann", 2]), ("holder-native-defined-tuple", "{@ (name, lst) @}", ("Ann", ["p", "q"])),
+            ("holder-native-defined-dict", "{@ {'a': row} @}", {"a": {"k": "v"}}), ("holder-native-empty", "{@ [] @}", []),
+            ("holder-native-empty-tuple", "{@ () @}", ()), ("holder-native-empty-dict", "{@ {} @}", {}),
+        ]
+        for fam, t, want in HN:
+            check_planted(t, base_ctx, False, fam, expect_value=want)
+        # explicit handling of an absent name (the reference is not "replaced by nothing": the author says what
+        # replaces it / asks whether it is there): legitimate Jinja, not an error on this tree; recorded, not judged
+        for t, want in [("{{ %s | default('d') }}" % miss, "d"), ("{{ %s is defined }}" % miss, "False"),
+                        ("{{ 'a' if %s is defined else 'b' }}" % miss, "b"), ("{@ %s | default('d') @}" % miss, "d")]:
+            r = run_cli_mode(cp.parse_as_string, t, dict(base_ctx))
+            cnt("explicit_absence_handling_" + ("as_before" if r == ("ok", want) else "changed"))
     # context None (omit_templating) and the "{"-shortcut
     for t in ["{{ missing }}", "{@ missing @}", " {% if %} ", "plain"]:
         v.coverage["evaluations"] += 1
@@ -877,6 +993,51 @@ def run(ctx):
             ctx.disagree("context None must return the stripped cell", t, t.strip(), str(r))
     for t in ["{{ missing }}", "x{{ missing }}y", "{% if missing %}a{% endif %}b"]:
         check_planted(t, {}, True, "empty-context")
+
+    # ---------------------------------------------------------------- (b1') planted sheets: the holder reaches FlowParser
+    def check_planted_sheet(family, body, expect, sctx=None):
+        """body: list of (type, include_if, loop_variable, message_text) after a first row `hi`;
+        expect = 'error' | list of messages"""
+        v.coverage["evaluations"] += 1
+        cnt("planted_sheet_" + family)
+        sctx = dict(base_ctx) if sctx is None else sctx
+        buf = io.StringIO()
+        w = csv.writer(buf, lineterminator="\n")
+        w.writerow(HEADER)
+        w.writerow(["", "send_message", "start", "", "", "hi"])
+        for typ, inc, lv, main in body:
+            w.writerow(["", typ, "", inc, lv, main])
+        csvtext = buf.getvalue()
+        _, res = impl_sheet(csvtext, sctx)
+        if expect == "error":
+            if res[0] == "ok":
+                fail("undefined-inside-list-literal", f"sheet {family}: FlowParser delivers messages {res[1]!r} from\n{csvtext}",
+                     dict(fn="sheetplanted", csv=csvtext, ctx=sctx, expect="error", produced=repr(res[1])))
+        elif res[0] != "ok":
+            ctx.disagree("planted sheet without an evaluated unknown name fails", csvtext, repr(expect), repr(res))
+        elif res[1] != expect:
+            fail("defined-not-exact", f"sheet {family}: messages {res[1]!r}, expected {expect!r}",
+                 dict(fn="sheetplanted", csv=csvtext, ctx=sctx, expect=expect, produced=repr(res[1])))
+
+    for miss in ["missing", "nmae"]:
+        check_planted_sheet("loop-over-holder-body-ignores-variable",
+                            [("begin_for", "", "x", "{@ [%s] @}" % miss), ("send_message", "", "", "in loop"), ("end_for", "", "", "")], "error")
+        check_planted_sheet("loop-over-holder", [("begin_for", "", "x", "{@ [name, %s] @}" % miss), ("send_message", "", "", "it {{ x }}"),
+                                                 ("end_for", "", "", "")], "error")
+        check_planted_sheet("loop-over-tuple-holder", [("begin_for", "", "x", "{@ (1, {'a': %s}) @}" % miss), ("send_message", "", "", "in loop"),
+                                                       ("end_for", "", "", "")], "error")
+        check_planted_sheet("message-prints-holder", [("send_message", "", "", "m {{ [%s] }}" % miss)], "error")
+        check_planted_sheet("message-is-native-holder", [("send_message", "", "", "{@ [%s] @}" % miss)], "error")
+        check_planted_sheet("include_if-is-native-holder", [("send_message", "{@ [%s] @}" % miss, "", "m")], "error")
+        check_planted_sheet("holder-under-false-include_if",
+                            [("begin_block", "FALSE", "", ""), ("send_message", "", "", "m {{ [%s] }}" % miss), ("end_block", "", "", ""),
+                             ("send_message", "", "", "tail")], ["hi", "tail"])
+        check_planted_sheet("holder-in-excluded-row", [("send_message", "false", "", "m {{ [%s] }}" % miss), ("send_message", "", "", "tail")],
+                            ["hi", "tail"])
+    check_planted_sheet("loop-over-defined-holder", [("begin_for", "", "x", "{@ [name, (n, 'b')] @}"), ("send_message", "", "", "it {{ x }}"),
+                                                     ("end_for", "", "", "")], ["hi", "it Ann", "it (2, 'b')"])
+    check_planted_sheet("loop-over-defined-tuple", [("begin_for", "", "x", "{@ (name, n) @}"), ("send_message", "", "", "it {{ x }}"),
+                                                    ("end_for", "", "", "")], ["hi", "it Ann", "it 2"])
 
     # ---------------------------------------------------------------- (b2) defined_exact
     n_exact = (3000 if thorough else 400) * scale
@@ -994,8 +1155,10 @@ def run(ctx):
             import jinja2
             if isinstance(r[1], jinja2.Undefined):
                 continue
-            fail("missing-name-renders", f"raw cell {t!r} touches 'a' ({tch[0]}) but renders {r[1]!r} without it",
-                 dict(fn="spy", text=t, ctx={"b": 1}, mode=0, name="a", produced=repr(r[1])))
+            in_container = set(tch) <= {"repr"} or (isinstance(r[1], str) and "Undefined" in r[1])
+            fail("undefined-inside-list-literal" if in_container else "missing-name-renders",
+                 f"raw cell {t!r} touches 'a' ({tch[0]}) but renders {safe_repr(r[1])} without it",
+                 dict(fn="spy", text=t, ctx={"b": 1}, mode=0, name="a", produced=safe_repr(r[1])))
 
     # ---------------------------------------------------------------- (a2) row loop: model <-> FlowParser, skipped rows
     n_sheets = (3000 if thorough else 250) * scale
@@ -1048,7 +1211,8 @@ def run(ctx):
     n_e2e = (400 if thorough else 40) * scale
     edist = {"ok": 0, "err": 0, "unsupported": 0}
     kinds = ["none", "misspelt-field", "undeclared-argument", "loop-variable-after-end_for", "absent-data-column",
-             "attribute-of-defined-object", "only-in-false-branch", "only-under-false-include_if"]
+             "attribute-of-defined-object", "only-in-false-branch", "only-under-false-include_if",
+             "inside-list-literal", "loop-over-list-literal"]
     for i in range(n_e2e):
         kind = kinds[i % len(kinds)]
         cnt("e2e_" + kind)
@@ -1061,13 +1225,21 @@ def run(ctx):
         bad = {"none": ok_ref, "misspelt-field": ("var", "nmae"), "undeclared-argument": ("var", "arg2"),
                "loop-variable-after-end_for": ("var", "x"), "absent-data-column": ("var", "phone"),
                "attribute-of-defined-object": ("attr", ("var", "custom"), "angry"),
-               "only-in-false-branch": ("var", "nmae"), "only-under-false-include_if": ("var", "nmae")}[kind]
+               "only-in-false-branch": ("var", "nmae"), "only-under-false-include_if": ("var", "nmae"),
+               "inside-list-literal": rng.choice([("list", [ok_ref, ("var", "nmae")]), ("dict", [("k", ("tuple", [("var", "arg2")]))]),
+                                                  ("tuple", [("attr", ("var", "custom"), "angry"), ("int", 1)])]),
+               "loop-over-list-literal": ("var", "phone")}[kind]
         rows = [dict(kind="plain", inc=T(""), main=("tmpl", [("text", "Hi "), ("out", ok_ref)]))]
         rows += [dict(kind="for", var="x", inc=T(""), main=T("a;b")),
                  dict(kind="plain", inc=T(""), main=("tmpl", [("text", "it "), ("out", ("var", "x"))])),
                  dict(kind="endfor", inc=T(""), main=T(""))]
         if kind == "only-in-false-branch":
             rows.append(dict(kind="plain", inc=T(""), main=("tmpl", [("text", "m "), ("if", ("bool", False), [("out", bad)], [("text", "e")])])))
+        elif kind == "loop-over-list-literal":
+            # the loop's own list holds the unknown name; the body does not look at the loop variable
+            rows += [dict(kind="for", var="y", inc=T(""), main=("native", ("list", [ok_ref, bad]))),
+                     dict(kind="plain", inc=T(""), main=T("again")),
+                     dict(kind="endfor", inc=T(""), main=T(""))]
         elif kind == "only-under-false-include_if":
             rows += [dict(kind="block", inc=T("FALSE"), main=T("")),
                      dict(kind="plain", inc=T(""), main=("tmpl", [("text", "m "), ("out", ("attr", bad, "k"))])),
@@ -1083,7 +1255,8 @@ def run(ctx):
         ir = e2e_run(files)
         expect_err = kind not in ("none", "only-in-false-branch", "only-under-false-include_if")
         if expect_err and ir[0] == "ok":
-            fail("missing-name-renders", f"create_flows: {kind}: the flow is delivered with messages {ir[1]!r}",
+            fail("undefined-inside-list-literal" if kind.endswith("list-literal") else "missing-name-renders",
+                 f"create_flows: {kind}: the flow is delivered with messages {ir[1]!r}",
                  dict(fn="e2e", files=files, kind=kind, produced=repr(ir[1])))
         if not expect_err and ir[0] != "ok":
             ctx.disagree("create_flows fails although no missing name is evaluated", dict(files=files), "ok", repr(ir))
@@ -1102,7 +1275,10 @@ def run(ctx):
 
     v.coverage["distinct_nontrivial"] = len(nontrivial)
     v.coverage["rule"] = (
-        "planted-name families (28 evaluated positions x 4 names must fail, 6 un-evaluated positions must render a known value); "
+        "planted-name families (28 evaluated positions + 24 positions inside list/tuple/dict literals, text and native, x 4 names must fail; "
+        "6 + 12 un-evaluated positions / literals over defined names must render a known value); planted sheets (a loop over, a message "
+        "printing, a message / include_if being a native literal that holds the unknown name must fail in FlowParser; the same under a "
+        "false include_if must compile); "
         "defined_exact: random text/{{ref}} interleavings against str(value) concatenation; generated cell ASTs (22% native, "
         "p(missing leaf) in {0,.1,.3,.6}, 93% with context, 3% context None, 4% empty context) printed by the model's show_cell, "
         "run through parse_as_string/parse on model (policy = regenerated constants) and implementation, plus the spy oracle on every "
@@ -1112,6 +1288,9 @@ def run(ctx):
     v.coverage["samples"] = [repr(x)[:160] for x in list(sorted(nontrivial, key=repr))[:: max(1, len(nontrivial) // 5)][:5]]
     v.assumptions += [
         "Jinja2 outside the mini-language is not modelled (filters other than escape, tests, set, macros, arithmetic, globals as values)",
+        "explicit handling of an absent name (`default` filter, `is defined` test) is legitimate Jinja and not judged (the reference is not "
+        "replaced by nothing); a reference whose Undefined object is stored in a literal and then DISCARDED without being looked at "
+        "(`[a, missing][0]`, `{% if [missing] %}`, a loop over `[missing]` in a text template whose body ignores the variable) is not an evaluated position",
         "show_cell (Coq printer) is parsed by Jinja2 back to the same AST (exercised, not proved)",
         "spy oracle: an object bound to the name sees every operation Jinja performs on that name's value",
         "pydantic data-row models behave like dicts for attribute access in the end-to-end cases (field names chosen outside pydantic's API)",
@@ -1175,6 +1354,9 @@ def replay(rep):
         return run_cli_mode(RowParser(M, CellParser()).parse_row, {r["field"]: r["text"]}, r["ctx"])[0] == "err"
     if r["fn"] == "e2e":
         return e2e_run(r["files"])[0] == "err"
+    if r["fn"] == "sheetplanted":
+        _, res = impl_sheet(r["csv"], r["ctx"])
+        return res[0] == "err" if r["expect"] == "error" else (res[0] == "ok" and res[1] == r["expect"])
     if r["fn"] == "sheet":
         iev, _ = impl_sheet(r["csv"], r["ctx"])
         bad = []
